@@ -189,8 +189,10 @@ class DFXPReader(BaseReader):
         microseconds += int(clock_time_match.group('seconds')) * \
                         MICROSECONDS_PER_UNIT["seconds"]
         if clock_time_match.group('sub_frames'):
+            # the digits are a decimal fraction of a second, however many
+            # there are; keep microsecond resolution
             microseconds += int(clock_time_match.group('sub_frames').ljust(
-                3, '0')) * MICROSECONDS_PER_UNIT["milliseconds"]
+                6, '0')[:6])
         elif clock_time_match.group('frames'):
             microseconds += int(clock_time_match.group('frames')) / 30 * \
                             MICROSECONDS_PER_UNIT["seconds"]
